@@ -140,6 +140,8 @@ def main(ctx):
         jobs.append({"part": "segment", "tier": tier, "role": "client"})
         for i in range(4):
             jobs.append({"part": "interop", "tier": tier, "slice": i, "slices": 4})
+        for mc in (1, 2):
+            jobs.append({"part": "limit", "tier": tier, "max": mc})
         ctx.pmap({"fw": fw, "nvx": "1"}, "props.c07:job", jobs)
     ctx.coverage["states"] = int(ctx.counters["cases"])
     ctx.coverage["transitions"] = int(ctx.counters["evaluations"])
@@ -147,7 +149,7 @@ def main(ctx):
     ctx.coverage["distinct_nontrivial"] = int(ctx.counters["nontrivial"])
     for n in ("ref:accept", "ref:reject", "ref:either", "server_open", "server_rejected",
               "client_open", "client_rejected", "token_strings", "url_cases", "segment_execs",
-              "interop_pairs"):
+              "interop_pairs", "limit_sequences", "limit_rejected", "limit_admitted"):
         ctx.require(n)
 
 
@@ -276,7 +278,7 @@ def job(a):
     env = worker.ENV
     part = a["part"]
     fn = {"server": _job_server, "tokens": _job_tokens, "client": _job_client, "urls": _job_urls,
-          "segment": _job_segment, "interop": _job_interop}[part]
+          "segment": _job_segment, "interop": _job_interop, "limit": _job_limit}[part]
     return fn(a, env)
 
 
@@ -475,6 +477,11 @@ URLS = [("ws://localhost:9000", "localhost", 9000, "/"),
         ("ws://example.com/a/b?x=1&y=2", "example.com", 80, "/a/b?x=1&y=2"),
         ("ws://example.com/a%20b?q=%C3%A9", "example.com", 80, "/a%20b?q=%C3%A9"),
         ("ws://127.0.0.1:1/", "127.0.0.1", 1, "/"),
+        ("ws://example.com/a%2Fb", "example.com", 80, "/a%2Fb"),
+        ("ws://example.com/chat%20room", "example.com", 80, "/chat%20room"),
+        ("ws://example.com/caf%C3%A9/x", "example.com", 80, "/caf%C3%A9/x"),
+        ("ws://example.com/a%3Fb%23c", "example.com", 80, "/a%3Fb%23c"),
+        ("ws://example.com:8080/a%2Fb?c=%2F", "example.com", 8080, "/a%2Fb?c=%2F"),
         ("ws://[::1]:9000/x", "::1", 9000, "/x"),
         ("ws://EXAMPLE.com:65535/?", "example.com", 65535, "/"),
         ("ws://a-b.example.co.uk:81//double", "a-b.example.co.uk", 81, "//double"),
@@ -609,6 +616,68 @@ def _job_segment(a, env):
                     if seen[clause] <= 2:
                         viol.append(_viol(clause, label, detail, env, a, "segment-" + role))
     return {"evals": evals, "viol": viol, "stats": stats, "samples": [{"part": "segment", "role": role}]}
+
+
+def _job_limit(a, env):
+    """connection limit over histories: ONE server factory, all sequences of {new connection +
+    valid handshake, peer closes the oldest / newest live connection} up to a depth; a handshake
+    must complete iff fewer than maxConnections connections are alive at that moment"""
+    from harness import ws
+    M = a["max"]
+    depth = 7 if a["tier"] == "thorough" else 6
+    stats = {"limit_sequences": 0, "limit_rejected": 0, "limit_admitted": 0, "cases": 0, "nontrivial": 0}
+    viol = []
+    evals = 0
+    E = ws.envmod()
+    for seq in itertools.product(("open", "close-oldest", "close-newest"), repeat=depth):
+        envobj = ws.new_env()
+        factory = ws.make_factory("server", envobj, {"maxConnections": M})
+        live = []       # (conn, admitted)
+        ok = True
+        for step, ev in enumerate(seq):
+            if ev == "open":
+                conn = E.Conn(factory, True, envobj)
+                conn.proto.rec = []
+                conn.proto.hooks = {}
+                conn.connect()
+                req = (b"GET / HTTP/1.1\r\nHost: localhost:9000\r\nUpgrade: websocket\r\nConnection: Upgrade\r\n"
+                       b"Sec-WebSocket-Key: dGhlIHNhbXBsZSBub25jZQ==\r\nSec-WebSocket-Version: 13\r\n\r\n")
+                conn.feed(req)
+                conn.settle()
+                alive_before = sum(1 for c, _ in live if not c.lost)
+                expect_admit = alive_before < M
+                admitted = conn.proto.state == 3
+                stats["limit_admitted" if admitted else "limit_rejected"] += 1
+                if admitted != expect_admit or conn.escapes:
+                    ok = False
+                    if len(viol) < 3:
+                        viol.append(_viol("connection-limit", "max=%d" % M,
+                                          "sequence=%s step %d: %d connections alive, handshake %s (escapes=%r)" % (
+                                              list(seq[:step + 1]), step, alive_before,
+                                              "completed" if admitted else "refused", conn.escapes[:1]),
+                                          env, a, "limit"))
+                    break
+                if not admitted:
+                    # a refused peer goes away (the server drops it; deliver the drop)
+                    if conn.own_drop_pending():
+                        conn.deliver_own_drop()
+                    else:
+                        conn.peer_drop()
+                    conn.settle()
+                live.append((conn, admitted))
+            else:
+                alive = [c for c, adm in live if not c.lost]
+                if not alive:
+                    continue
+                c = alive[0] if ev == "close-oldest" else alive[-1]
+                c.peer_drop()
+                c.settle()
+        evals += 1
+        stats["limit_sequences"] += 1
+        stats["cases"] += 1
+        stats["nontrivial"] += 1
+    return {"evals": evals, "viol": viol, "stats": stats,
+            "samples": [{"part": "limit", "max": M, "depth": depth}]}
 
 
 def _job_interop(a, env):
